@@ -3,6 +3,7 @@ package core
 
 import (
 	"fmt"
+	"strings"
 	"hash/fnv"
 	"sort"
 
@@ -177,3 +178,28 @@ func IDs() []string {
 	sort.Strings(ids)
 	return ids
 }
+
+// PanicInLibrary reports whether the innermost non-runtime, non-stdlib frame of
+// a panic belongs to the library under test (a violation) rather than to the
+// harness itself (exit 2, never a verdict).
+func PanicInLibrary(stack string) bool {
+	lines := strings.Split(stack, "\n")
+	seenPanic := false
+	for _, l := range lines {
+		if strings.HasPrefix(l, "panic(") {
+			seenPanic = true
+			continue
+		}
+		if !seenPanic || strings.HasPrefix(l, "\t") {
+			continue
+		}
+		if strings.HasPrefix(l, "github.com/segmentio/encoding/verifshim/") || strings.HasPrefix(l, "verifsim/") {
+			return false
+		}
+		if strings.HasPrefix(l, "github.com/segmentio/") {
+			return true
+		}
+	}
+	return false
+}
+
